@@ -80,6 +80,12 @@ JudgeC16(rec) ==
             "debsig verification succeeded although the signature does not cover the loaded members">>,
           <<\A k \in 1..Len(rec.reps) : rec.reps[k].sig_ok => rec.reps[k].signer \in ring,
             "reported signer is not a key of the keyring">>,
+          <<rec.first.ok => \A k \in 1..Len(rec.first.sig_again) :
+                LET a == rec.first.sig_again[k]  r2 == {a.ring[i] : i \in 1..Len(a.ring)} IN
+                /\ a.ok => (a.signer \in r2 /\ unique /\ sigs # {} /\
+                            \E s \in sigs : s \notin tam /\ Verifies(ms[s], <<TheOne(b), TheOne(c), TheOne(d)>>, r2, tam))
+                /\ a.ok => a.signer = ms[CHOOSE s \in sigs : TRUE].key,
+            "a later CheckDebsig call on the same loaded package succeeded for a keyring that does not hold the signing key">>,
           <<mustVerify => \A k \in 1..Len(rec.reps) : rec.reps[k].ok /\ rec.reps[k].sig_ok /\ rec.reps[k].signer = theSig.key,
             "valid signature by a keyring key over the loaded members was not accepted">>,
           <<(unique /\ ShapeClass(ms) = "wellformed" /\ rec.first.ok /\ rec.first.sig.ok) => ControlAgrees(rec.first, ms[TheOne(c)].fields),
